@@ -148,11 +148,16 @@ def Fn.logOf (fn : Fn) (f : String) (vs : List Val) : Log := if fn.host then [(f
 /-- `Phase1Transpiler.func_name`: dotted text only when it denotes the object in celpy.evaluation's globals -/
 def Callable.toFn (c : Callable) : Fn := ⟨decide (c.kind = .evalVisible), c.fn, !c.builtin⟩
 
+/-- `except (C₁, C₂, …)`: does the handler catch an exception of class `e`?  `.other` in the list stands for
+`except Exception`, which catches every class. -/
+def catches (cs : List Exc) (e : Exc) : Bool := cs.contains e || cs.contains .other
+
 /-- evaluation context: resolved functions + which exception classes the call sites convert -/
 structure Ctx where
   fns : String → Option Fn
-  /-- classes caught around `function(*args)` in `function_eval` / `method_eval` -/
-  callCaught : List Exc := [.valueError, .typeError, .attributeError]
+  /-- classes caught around `function(*args)` in `function_eval` / `method_eval`
+  (`except (ValueError, OverflowError)`, `except (TypeError, AttributeError)`, `except Exception`) -/
+  callCaught : List Exc := [.valueError, .overflow, .typeError, .attributeError, .other]
   /-- classes caught by `celpy.evaluation.result()` -/
   resultCaught : List Exc :=
     [.valueError, .keyError, .typeError, .zeroDiv, .overflow, .indexError, .nameError, .attributeError]
@@ -240,7 +245,7 @@ def ltV (x y : Val) : PyM Val :=
 def catchAs (cs : List Exc) (r : PyM Val) : PyM Val :=
   match r with
   | .ok v => .ok v
-  | .error e => if e ∈ cs then .ok .err else .error e
+  | .error e => if catches cs e then .ok .err else .error e
 
 /-- `eval_error("no such overload", TypeError)(logical_and)` as used by the `all` reducers -/
 def andE (acc b : Val) : PyM Val := catchAs [.typeError] (andV acc b)
@@ -262,7 +267,7 @@ def firstErr : List Val → Bool
 def applyI (cx : Ctx) (fn : HostFn) (vs : List Val) : PyM Val :=
   match fn vs with
   | .ret v => .ok v
-  | .raise e => if e ∈ cx.callCaught then .ok .err else .error e
+  | .raise e => if catches cx.callCaught e then .ok .err else .error e
 
 /-- `Evaluator.function_eval(name, values)` -/
 def functionEval (cx : Ctx) (f : String) (vs : List Val) : Out Val :=
@@ -330,13 +335,13 @@ def evalI (cx : Ctx) (env : List Val) : Expr → Out Val
         match s with
         | .err => Out.pure .err
         | .list vs => foldBody (fun v => evalI cx (v :: env) body) andE (.bool true) vs
-        | _ => liftP (.error .typeError)           -- iterating a non-list
+        | _ => Out.pure .err                       -- "found no matching overload for 'all' applied to …"
   | .exists_ src body =>
       Out.bind (evalI cx env src) fun s =>
         match s with
         | .err => Out.pure .err
         | .list vs => foldBody (fun v => evalI cx (v :: env) body) orE (.bool false) vs
-        | _ => liftP (.error .typeError)
+        | _ => Out.pure .err
   | .map src body =>
       Out.bind (evalI cx env src) fun s =>
         match s with
@@ -345,7 +350,7 @@ def evalI (cx : Ctx) (env : List Val) : Expr → Out Val
             match r with
             | some ws => Out.pure (.list ws)
             | none => Out.pure .err
-        | _ => liftP (.error .typeError)
+        | _ => Out.pure .err
 /-- `visit_children`: all children, left to right -/
 def evalIs (cx : Ctx) (env : List Val) : List Expr → Out (List Val)
   | [] => Out.pure []
@@ -360,7 +365,7 @@ def runI (cx : Ctx) (e : Expr) : Out Val := evalI cx [] e
 /-- `celpy.evaluation.result(activation, lambda)` -/
 def resultC (cx : Ctx) (o : Out Val) : Out Val :=
   match o with
-  | (.error e, l) => if e ∈ cx.resultCaught then (.ok .err, l) else (.error e, l)
+  | (.error e, l) => if catches cx.resultCaught e then (.ok .err, l) else (.error e, l)
   | x => x
 
 /-- a raised exception propagates -/
@@ -452,8 +457,13 @@ def runC (cx : Ctx) (e : Expr) : Out Val :=
 def sizeFn : HostFn
   | [.list xs] => .ret (.int xs.length)
   | _ => .raise .typeError
+/-- `function_contains(container, item)` = `operator_in(item, container)`: an erroneous operand is returned -/
 def containsFn : HostFn
-  | [.list xs, v] => .ret (.bool (xs.any (· == v)))
+  | [c, v] =>
+      if v.isErr || c.isErr then .ret .err
+      else match c with
+        | .list xs => .ret (.bool (xs.any (· == v)))
+        | _ => .raise .typeError
   | _ => .raise .typeError
 
 def builtin (fn : HostFn) : Callable := ⟨none, .evalVisible, fn, true⟩
